@@ -62,7 +62,12 @@ func genC06(tier string, run int, r *simcore.Rand) *harness.Plan {
 			at := ds[r3.Intn(len(ds))]
 			f := ops[at]
 			f.K, f.Race = "faildeliver", false
-			if r3.Bool(0.7) {
+			if r3.Bool(0.35) {
+				// no failure: the client goes away (context cancelled) the
+				// moment the rows are committed
+				f.Cancel = true
+				ops[at] = f
+			} else if r3.Bool(0.7) {
 				// the client tries again (the original delivery stays)
 				ops = append(ops[:at], append([]Op{f}, ops[at:]...)...)
 			} else {
@@ -734,6 +739,14 @@ func execC06(rc *harness.RunCtx, p *harness.Plan, cfg *Config, w *world, ops []O
 				cz.sequential = !cz.pendingAtStart
 				cz.noteDelivery(op, s.corpusOn)
 				cz.endSegment()
+				if ops[i].Cancel {
+					// the blob is committed (once or on the repeated
+					// upload): live and fresh must agree about it now
+					out.Reached["compare-after-cancelled-upload"]++
+					if compare(i + 1) {
+						return out
+					}
+				}
 				break
 			}
 			// The upload failed and nothing of it was committed: a fresh
